@@ -420,9 +420,12 @@ const FSUF: [(&str, Ty); 4] = [("", Ty::F64), ("", Ty::F32), ("f64", Ty::F64), (
 
 /// is the (underscore-free) numeric text one of the documented float forms
 /// `0.0`, `10.`, `10e5`, `5E-5`, `10.2f32`?
-fn documented_float_form(frac: &str, exp: &str) -> bool {
+fn documented_float_form(frac: &str, exp: &str, suffix: &str) -> bool {
     if frac.is_empty() && exp.is_empty() {
         return false; // an integer
+    }
+    if frac == "." && exp.is_empty() && !suffix.is_empty() {
+        return false; // `10.f32` reads as a field access on `10`
     }
     if !exp.is_empty() {
         let body = &exp[1..];
@@ -449,7 +452,7 @@ fn float_core(tier: Tier, idx: u64) -> Case {
     let mut c = Case::new("float", ctx, format!("{num}{suf}"));
     if let Some(dv) = dec_float_text(&num) {
         c.expect = float_expect(ctx, &dv, false);
-        c.must_accept = documented_float_form(f, e) && !c.expect.is_empty();
+        c.must_accept = documented_float_form(f, e, suf) && !c.expect.is_empty();
     }
     c
 }
@@ -511,7 +514,7 @@ fn float_und(tier: Tier, idx: u64) -> Case {
     let mut c = Case::new("float-underscore", ctx, format!("{num}{suf}"));
     if let Some(dv) = dec_float_text(&num) {
         c.expect = float_expect(ctx, &dv, false);
-        c.must_accept = digit_group_only && documented_float_form(base.fr, base.ex) && !c.expect.is_empty();
+        c.must_accept = digit_group_only && documented_float_form(base.fr, base.ex, suf) && !c.expect.is_empty();
     }
     c
 }
